@@ -31,5 +31,5 @@ def p_deflevels(ctx):
 
 def run(ctx):
     from ._generic import optional_parts
-    extra = optional_parts(("_hybrid", "p_hybrid"), ("_encoders", "p_encoders"), ("_speedups", "p_speedups"), ("_units", "p_units"))
+    extra = optional_parts(("_hybrid", "p_hybrid"), ("_encoders", "p_encoders"), ("_speedups", "p_speedups"), ("_units", "p_units"), ("_bookkeeping", "p_bookkeeping"))
     return run_property(ctx, "proof", EXPLANATION, p_parts=[p_kernels, p_deflevels] + extra, b_modules=["c11_numpy_paths"])
